@@ -218,7 +218,10 @@ fn main() {
             t = if t == usize::MAX { t - 1 } else { t + 1 };
         }
         for (e, x) in site.edges.iter().zip(r.iter()) {
-            profile.verif_set_memory(&site.bucket, e, *x, 0.5);
+            // the stored average-strategy column varies independently of the regrets: the matched
+            // strategy must not depend on it
+            let w = match case % 4 { 0 => 0.5, 1 => rng.unit() as f32, 2 => magnitude(&mut rng).min(1e6), _ => if rng.chance(1, 2) { 0.0 } else { (rng.unit() * 50.0) as f32 } };
+            profile.verif_set_memory(&site.bucket, e, *x, w);
         }
         profile.verif_set_epochs(t);
         run.evaluations += 1;
@@ -388,6 +391,57 @@ fn main() {
                         }
                     }
                 }
+            }
+        }
+
+        // ---- real update sequences that leave NO positive regret beside a skewed stored average
+        //      strategy (add_regret / add_policy in both orders, then an all-non-positive or exactly
+        //      cancelling add_regret): the matched strategy must be uniform whatever the policy column says
+        {
+            let seqs = if a.thorough() { 4000 } else { 400 };
+            let mut p = Profile::default();
+            for k in 0..seqs {
+                let size = sizes[rng.below(sizes.len() as u64) as usize];
+                let pool = &by_size[&size];
+                let site = &sites[pool[rng.below(pool.len() as u64) as usize]];
+                let n = site.edges.len();
+                for e in site.edges.iter() {
+                    p.verif_set_memory(&site.bucket, e, 0.0, 1.0 / n as f32);
+                }
+                let t0 = 400 + 2 * rng.below(1000) as usize + site.player; // past the discount phase: plain sums
+                p.verif_set_epochs(t0);
+                let mixed: Vec<f32> = (0..n).map(|_| (rng.range(-40, 40) as f32) * 0.5).collect();
+                let skew: Vec<f32> = (0..n).map(|i| if i == 0 { 0.9 } else { 0.1 / n as f32 }).collect();
+                let last: Vec<f32> = match k % 3 {
+                    0 => mixed.iter().map(|x| -x).collect(),                 // exactly cancelling: all zero
+                    1 => mixed.iter().map(|x| -x.abs() - 1.0 - x).collect(), // all negative
+                    _ => mixed.iter().map(|x| -x.max(0.0) - x.max(0.0).min(1.0)).collect(), // positives pushed to <= 0
+                };
+                let map = |v: &Vec<f32>| site.edges.iter().cloned().zip(v.iter().cloned()).collect::<BTreeMap<Edge, f32>>();
+                let steps: [(&str, &Vec<f32>); 3] = if k % 2 == 0 { [("r", &mixed), ("p", &skew), ("r", &last)] } else { [("p", &skew), ("r", &mixed), ("r", &last)] };
+                for (kind, v) in steps {
+                    if kind == "r" {
+                        p.add_regret(&site.bucket, &robopoker::mccfr::regret::Regret::from(map(v)));
+                    } else {
+                        p.add_policy(&site.bucket, &robopoker::mccfr::policy::Policy::from(map(v)));
+                    }
+                }
+                p.next();
+                p.next();
+                let t = p.epochs();
+                let r: Vec<f32> = site.edges.iter().map(|e| p.verif_memory(&site.bucket, e).unwrap().0).collect();
+                let got = catch(AssertUnwindSafe(|| p.policy_vector(&site.info)));
+                run.evaluations += 1;
+                let bits = r.iter().map(|x| x.to_bits().to_string()).collect::<Vec<_>>().join(" ");
+                let answer = match &got {
+                    None => "panic".to_string(),
+                    Some(m) => m.values().map(|v| tok(*v)).collect::<Vec<_>>().join(" "),
+                };
+                let op = format!("policy32 {} {} {}", site.player, t, bits);
+                run.line(&op, &answer);
+                run.line(&format!("policyq {} {} {}", site.player, t, bits), &answer);
+                run.count(if r.iter().all(|x| *x <= 0.0) { "update-sequence: no positive regret, skewed stored policy" } else { "update-sequence: some positive regret, skewed stored policy" });
+                oracle(&mut run, &format!("{op} [after {} then add_regret leaving no positive regret; stored policy column skewed 0.9 on the first action]", if k % 2 == 0 { "add_regret, add_policy" } else { "add_policy, add_regret" }), site, t, &r, &got);
             }
         }
 
@@ -630,7 +684,7 @@ fn main() {
          {{0,1,2,small,<2^20,<2^40,2^k,usize::MAX-k}} with parity chosen to match the node's player (1/25 deliberately mismatched: must abort), \
          1/60 with a stored NaN/inf (correspondence only); regret_vector on every information set of {tree_rounds} more trees per traverser with \
          the stored average strategy left as is / randomised / made extreme; {clamp_cases} random bit patterns through the clamp expression; \
-         walker at 2064 counters; plus every information set visited during real training epochs (4 trees per epoch) and after a simulated load; Profile::counterfactual in ask / change regrets / ask again (same epoch) / next x2 / ask sequences, half on fresh threads; save -> blueprint cut at row boundaries inside a bucket, inside rows, at bucket boundaries, without trailer -> load -> menu completeness, policy_vector at the known information sets, two resumed epochs. A policy case is non-trivial always (>= 2 actions or a checked singleton); distinct by (player, t, regret bits)"
+         walker at 2064 counters; plus every information set visited during real training epochs (4 trees per epoch) and after a simulated load; Profile::counterfactual in ask / change regrets / ask again (same epoch) / next x2 / ask sequences, half on fresh threads; real add_regret/add_policy sequences (both orders) ending with no positive regret beside a skewed stored average strategy; the stored policy column of every synthetic case varies independently of the regrets; save -> blueprint cut at row boundaries inside a bucket, inside rows, at bucket boundaries, without trailer -> load -> menu completeness, policy_vector at the known information sets, two resumed epochs. A policy case is non-trivial always (>= 2 actions or a checked singleton); distinct by (player, t, regret bits)"
     );
     run.finish();
 }
